@@ -382,7 +382,7 @@ func (p *VipnodePool) requestHosts(ctx context.Context, nodeID string, numReques
 	}
 
 	var hosts []store.Node
-	if numRequestHosts == 0 {
+	if numRequestHosts <= 0 {
 		// Nothing left to do
 		return hosts, nil
 	}
@@ -434,6 +434,12 @@ func (p *VipnodePool) requestHosts(ctx context.Context, nodeID string, numReques
 		}
 	}
 	p.mu.Unlock()
+
+	if len(remotes) > numRequestHosts {
+		// ActiveHosts was asked for extra candidates to make up for the
+		// skipped peers, never return (or whitelist) more than requested.
+		remotes = remotes[:numRequestHosts]
+	}
 
 	accepted := make([]store.Node, 0, len(remotes))
 	callCtx, cancel := context.WithTimeout(ctx, poolWhitelistTimeout)
